@@ -28,6 +28,17 @@ CHECKS = {
              "Two open known findings (equivalent reference offsets; mir_hash_strict collisions on repeated-byte blocks) are announced, not masked: "
              "any other accepted damaged stream is a violation. Long streams are mutated by sampling, not exhaustively.",
         design="3/C12"),
+    "C15": dict(
+        technique=TECH + "exhaustive acceptance-table oracle (transcribed from MIR.md) over the real constructors with a longjmp-ing error callback",
+        text="Every fixed-arity opcode x operand position x 40 operand kinds (registers of each type, each immediate kind, memory of each type "
+             "incl. block/undef, label, item references, string, bad base/index/undeclared registers) is built through MIR_new_insn_arr and "
+             "MIR_finish_func in a fresh context on the fast and the ASan/assert builds, and the outcome (accepted / error code / crash) is compared "
+             "with an acceptance table written from MIR.md, independent of insn_descs. Plus an arity sweep over every opcode value and an "
+             "enumerated list of ret/call/switch/overflow-branch/declaration/vararg rules; thorough adds all two-position combinations. The "
+             "single-fault space is enumerated completely.",
+        note="Trusted: my transcription of MIR.md (DESIGN.md appendix A); combinations MIR.md is silent about are counted as 'unspecified' and not judged. "
+             "Faults involving three or more operands at once are not enumerated.",
+        design="3/C15"),
 }
 
 REASON_TODO = "check not built yet (work in progress; DESIGN.md section 3 describes the planned monitor)"
